@@ -6,6 +6,9 @@ use std::cell::RefCell;
 use std::ops::{Add, Mul, MulAssign, Neg, Sub};
 
 thread_local! {
+    /// logical step budget for symbolic pair operations (a merge that produces more pieces than
+    /// len f + len g can only be a runaway loop): exceeded => panic caught by the monitor
+    pub static PAIR_BUDGET: std::cell::Cell<i64> = std::cell::Cell::new(i64::MAX);
     pub static TAG_LOG: RefCell<Vec<(u32, u64)>> = RefCell::new(Vec::new());
     pub static TR_LOG: RefCell<Vec<TrEvent>> = RefCell::new(Vec::new());
 }
@@ -57,6 +60,7 @@ pub struct Pair {
 impl<'a, 'b> Add<&'b Pair> for &'a Pair {
     type Output = Pair;
     fn add(self, o: &'b Pair) -> Pair {
+        pair_step();
         Pair {
             l: self.l,
             r: o.r,
@@ -67,12 +71,25 @@ impl<'a, 'b> Add<&'b Pair> for &'a Pair {
 impl<'a, 'b> Sub<&'b Pair> for &'a Pair {
     type Output = Pair;
     fn sub(self, o: &'b Pair) -> Pair {
+        pair_step();
         Pair {
             l: self.l,
             r: o.r,
             op: b'-',
         }
     }
+}
+fn pair_step() {
+    PAIR_BUDGET.with(|b| {
+        let v = b.get() - 1;
+        b.set(v);
+        if v < 0 {
+            panic!("VERIF logical bound exceeded: more piece combinations than len(f)+len(g)+4");
+        }
+    });
+}
+pub fn pair_budget(n: i64) {
+    PAIR_BUDGET.with(|b| b.set(n));
 }
 pub fn pair_pw(ends: &[f64], left: bool) -> Piecewise<Pair> {
     Piecewise {
